@@ -76,7 +76,8 @@ fn in_children(texts: &[String], children: usize, meanwhile: impl FnOnce()) -> R
     std::fs::create_dir_all(&dir).map_err(|_| "scratch directory")?;
     let file = dir.join(format!("list{}.json", N.fetch_add(1, std::sync::atomic::Ordering::Relaxed)));
     std::fs::write(&file, serde_json::to_string(texts).unwrap()).map_err(|_| "scratch file")?;
-    let exe = std::env::current_exe().map_err(|_| "current_exe")?;
+    // (the running image itself, also when the file was rebuilt meanwhile)
+    let exe = if std::path::Path::new("/proc/self/exe").exists() { std::path::PathBuf::from("/proc/self/exe") } else { std::env::current_exe().map_err(|_| "current_exe")? };
     let mut kids = vec![];
     for _ in 0..children {
         let kid = std::process::Command::new(&exe)
